@@ -104,10 +104,12 @@ impl Binder {
         plan = self.egraph.add(Node::Filter([where_, plan]));
         let mut to_rewrite = [projection, distinct, having, orderby];
         plan = self.plan_agg(&mut to_rewrite, groupby, plan)?;
-        let [mut projection, distinct, mut having, orderby] = to_rewrite;
+        let [projection, distinct, mut having, orderby] = to_rewrite;
         self.plan_apply(&mut having, &mut plan);
         plan = self.egraph.add(Node::Filter([having, plan]));
-        plan = self.plan_window(projection, distinct, orderby, plan)?;
+        let mut to_rewrite = [projection, distinct, orderby];
+        plan = self.plan_window(&mut to_rewrite, plan)?;
+        let [mut projection, distinct, orderby] = to_rewrite;
         plan = self.plan_distinct(distinct, orderby, &mut projection, plan)?;
         plan = self.egraph.add(Node::Order([orderby, plan]));
         plan = self.egraph.add(Node::Proj([projection, plan]));
@@ -347,11 +349,15 @@ impl Binder {
     /// Extracts all over nodes from `projection`, `distinct` and `orderby`.
     /// Generates an [`Window`](Node::Window) plan if any over node is found.
     /// Otherwise returns the original `plan`.
-    fn plan_window(&mut self, projection: Id, distinct: Id, orderby: Id, plan: Id) -> Result {
+    ///
+    /// The over nodes in `exprs` are wrapped in a [`Ref`](Node::Ref) node, so that the expressions
+    /// above the window plan refer to its output columns (and column pruning keeps them) instead
+    /// of the columns the window functions are computed from.
+    fn plan_window(&mut self, exprs: &mut [Id], plan: Id) -> Result {
         let mut overs = vec![];
-        overs.extend_from_slice(self.overs(projection));
-        overs.extend_from_slice(self.overs(distinct));
-        overs.extend_from_slice(self.overs(orderby));
+        for id in exprs.iter() {
+            overs.extend_from_slice(self.overs(*id));
+        }
 
         if overs.is_empty() {
             return Ok(plan);
@@ -362,8 +368,27 @@ impl Binder {
             .collect();
         list.sort();
         list.dedup();
+        for id in exprs {
+            *id = self.rewrite_over_in_expr(*id, &list);
+        }
         let overs = self.egraph.add(Node::List(list.into()));
         Ok(self.egraph.add(Node::Window([overs, plan])))
+    }
+
+    /// Rewrites the expression `id` with the window functions in `overs` wrapped in a
+    /// [`Ref`](Node::Ref) node. Returns the new expression.
+    fn rewrite_over_in_expr(&mut self, id: Id, overs: &[Id]) -> Id {
+        if overs.contains(&id) {
+            return self.wrap_ref(id);
+        }
+        let mut expr = self.node(id).clone();
+        if let Node::Max1Row(_) = &expr {
+            return id;
+        }
+        for child in expr.children_mut() {
+            *child = self.rewrite_over_in_expr(*child, overs);
+        }
+        self.egraph.add(expr)
     }
 
     /// Extract all subqueries from `id` and generate [`Apply`](Node::Apply) plans.
